@@ -263,6 +263,11 @@ int KSI_TlvElement_serialize(const KSI_TlvElement *element, unsigned char *buf, 
 
 	/* Add the header length, if requested. */
 	if ((opt & KSI_TLV_OPT_NO_HEADER) == 0) {
+		/* The length field of the header is limited to 16 bits. */
+		if (dat_len > 0xffff) {
+			res = KSI_INVALID_FORMAT;
+			goto cleanup;
+		}
 		buf_len += hdr_len;
 	}
 
